@@ -25,7 +25,7 @@ def unkey (n : Nat) : List Char := unkeyAux 64 n []
 end Dcg.Model.Key
 
 /-- `k! "text"` ↦ the numeral `keyOf "text".toList` -/
-macro "k!" s:str : term => do
+macro:max "k!" s:str : term => do
   let n := s.getString.toList.foldl (fun a c => a * 1114112 + c.toNat) 0
   return Lean.Syntax.mkNumLit (toString n)
 
